@@ -829,6 +829,15 @@ func (fr *frame) execSlice(x *ssa.Slice, st *State) {
 		}
 		fr.safety(st, "slice-bounds", operandName(x.X), And(le(zero, l), le(l, h), le(h, cp), le(cp, n)), x.Pos())
 		fr.setVal(x, MkSlice(b, l, sub(h, l), sub(cp, l)))
+		// slicing a small array (variadic argument lists, composite literals): name
+		// the element addresses so quantified facts about the slice have ground
+		// terms to match (selem is defined by an axiom triggered on selem terms)
+		if arr.Len() <= 8 && lo == nil {
+			rv := fr.vals[x]
+			for k := int64(0); k < arr.Len(); k++ {
+				c.emit("(assert (= (selem %s %d) (ridx %s %d)))", rv.S, k, b.S, k)
+			}
+		}
 	case *types.Basic: // string
 		l := zero
 		if lo != nil {
